@@ -1,6 +1,7 @@
 import CorsVerif.Proofs.Pattern
 import CorsVerif.Proofs.ACRH
 import CorsVerif.Proofs.Accepted
+import CorsVerif.Proofs.IxRefine
 import CorsVerif.Spec.Fetch
 /-
   C17 — No input can crash configuration or request handling.  (PARTIAL)
@@ -331,6 +332,74 @@ operand of, enclosing `if`/`for`/`range`/`case` conditions, negations of earlier
 expression, and a dropped, weakened or reordered guard, break this obligation. -/
 theorem C17_sites : Facts.cors_indexSites = auditedSites := by decide +kernel
 
+/-! ### P8. The hand-indexing functions, at index level
+
+`Model/Ix.lean` transliterates the functions of /repo that index and slice strings by hand, statement by
+statement, with `int` counters and Go's *checked* `s[i]`, `s[lo:hi]` (`.error ()` = run-time panic; running out of
+loop fuel is an error too).  Each theorem below says, for **every** input: the program returns `.ok` — no index or
+slice expression is ever out of range and every loop ends — and what it returns is what the list-level model (the
+one the other properties are proved about and the correspondence check runs against the code) returns. -/
+
+/-- **P8 (parseScheme).** -/
+theorem C17_ix_parseScheme (str : Bytes) : Ix.parseScheme str = .ok (Lex.parseScheme str) := Ix.parseScheme_refines str
+/-- **P8 (parsePort).** Includes the bounds-check hoist `_ = str[i:end]`. -/
+theorem C17_ix_parsePort (str : Bytes) : Ix.parsePort str = .ok (Lex.parsePort str) := Ix.parsePort_refines str
+/-- **P8 (fastParseHost).** Includes the short-circuit order `len(str) >= minIPv6HostLen && str[0] == '['`. -/
+theorem C17_ix_fastParseHost (str : Bytes) : Ix.fastParseHost str = .ok (Lex.fastParseHost str) := Ix.fastParseHost_refines str
+/-- **P8 (lastByte).** -/
+theorem C17_ix_lastByte (str : Bytes) : Ix.lastByte str = .ok str.getLast? := Ix.lastByte_refines str
+/-- **P8 (splitAtCommonSuffix).** The loop runs `i` down to −1; the list-level model works on reversed strings. -/
+theorem C17_ix_splitAtCommonSuffix (a b : Bytes) :
+    Ix.splitAtCommonSuffix a b = .ok ((Node.splitCommon a.reverse b.reverse).1.reverse,
+      (Node.splitCommon a.reverse b.reverse).2.1.reverse, (Node.splitCommon a.reverse b.reverse).2.2.reverse) :=
+  Ix.splitAtCommonSuffix_refines a b
+/-- **P8 (TrimOWS, trimLeftOWS, trimRightOWS).** -/
+theorem C17_ix_trimOWS (s : Bytes) (n : Nat) : Ix.trimOWS s n = .ok (Headers.trimOWS s n) := Ix.trimOWS_refines s n
+/-- **P8 (cutAtComma).** -/
+theorem C17_ix_cutAtComma (str : Bytes) (n : Nat) : Ix.cutAtComma str n = .ok (Headers.cutAtComma str n) := Ix.cutAtComma_refines str n
+
+/-- The checked operations do report what Go would panic on (the theorems above are not vacuous): reading past
+the end, an inverted slice, `parseScheme` without its `len(str) == 0 ||` guard, `lastByte` without its guard. -/
+example : Ix.idx [1, 2, 3] 3 = .error () := by rfl
+example : Ix.slice [1, 2, 3] 2 1 = .error () := by rfl
+example : Ix.slice [1, 2, 3] 1 4 = .error () := by rfl
+example : (Ix.idx [] 0 >>= fun c => pure (Lex.isLowerAlpha c) : Ix.Chk Bool) = .error () := by rfl
+example : Ix.idx [] (Ix.len [] - 1) = .error () := by rfl
+example : Ix.parseScheme (Spec.b "https://a") = .ok (some (Spec.b "https", Spec.b "://a")) := by rfl
+example : Ix.splitAtCommonSuffix (Spec.b "foo.example.com") (Spec.b "bar.example.com")
+    = .ok (Spec.b "foo", Spec.b "bar", Spec.b ".example.com") := by rfl
+
+/-- Fingerprints (SHA-256, first 12 bytes, computed by harness/extract on every run) of the text of the functions
+`Model/Ix.lean` transliterates — signature and body, comments dropped, white space normalised.  The texts the
+transliteration was written from (Gen/Facts.lean carries today's texts in the comment of `cors_ixBodies`):
+
+  * `origins.parseScheme|func(str string) (string, string, bool) { if len(str) == 0 || !isLowerAlpha(str[0]) { return "", str, false } i := 1 for end := min(maxSchemeLen, len(str)); i < end; i++ { if !isSubsequentSchemeByte(str[i]) { break } } return str[:i], str[i:], true }`
+  * `origins.parsePort|func(str string) (int, string, bool) { const base = 10 if len(str) == 0 || !isNonZeroDigit(str[0]) { return 0, str, false } port := intFromDigit(str[0]) i := 1 end := min(len(str), maxPortLen) _ = str[i:end] for ; i < end; i++ { if !isDigit(str[i]) { break } port = base*port + intFromDigit(str[i]) } if port < 0 || maxUint16 < port { return 0, str, false } return port, str[i:], true }`
+  * `origins.fastParseHost|func(str string) (Host, string, bool) { const ( minIPv6HostLen = len("[::]") maxIPv6HostLen = len("[1111:1111:1111:1111:1111:1111:1111:1111]") ) if len(str) >= minIPv6HostLen && str[0] == '[' { end := strings.IndexByte(str, ']') if end == -1 { return zeroHost, str, false } host := Host{ Value: str[1:end], AssumeIP: true, } return host, str[end+1:], true } if len(str) == 0 || str[0] == labelSep { return zeroHost, str, false } var ( previousByteWasLabelSep bool assumeIPv4 bool i int ) for ; i < len(str); i++ { if str[i] == labelSep { if previousByteWasLabelSep { return zeroHost, "", false } previousByteWasLabelSep = true } else if isDigit(str[i]) { if previousByteWasLabelSep || i == 0 { assumeIPv4 = true } previousByteWasLabelSep = false } else if isASCIILabelByte(str[i]) { if previousByteWasLabelSep { assumeIPv4 = false } previousByteWasLabelSep = false } else { break } } host := Host{ Value: str[:i], AssumeIP: assumeIPv4, } return host, str[i:], true }`
+  * `origins.lastByte|func(str string) (byte, bool) { if len(str) == 0 { return 0, false } return str[len(str)-1], true }`
+  * `origins.splitAtCommonSuffix|func(a, b string) (string, string, string) { s, l := a, b if len(l) < len(s) { s, l = l, s } l = l[len(l)-len(s):] _ = l[:len(s)] i := len(s) - 1 for ; 0 <= i && s[i] == l[i]; i-- { } i++ return a[:len(a)-len(s)+i], b[:len(b)-len(s)+i], s[i:] }`
+  * `headers.TrimOWS|func(s string, n int) (trimmed string, ok bool) { if s == "" { return s, true } trimmed, ok = trimRightOWS(s, n) if !ok { return s, false } trimmed, ok = trimLeftOWS(trimmed, n) if !ok { return s, false } return trimmed, true }`
+  * `headers.trimLeftOWS|func(s string, n int) (string, bool) { sCopy := s var i int for len(s) > 0 { if i > n { return sCopy, false } if !isOWS(s[0]) { break } s = s[1:] i++ } return s, true }`
+  * `headers.trimRightOWS|func(s string, n int) (string, bool) { sCopy := s var i int for len(s) > 0 { if i > n { return sCopy, false } if !isOWS(s[len(s)-1]) { break } s = s[:len(s)-1] i++ } return s, true }`
+  * `headers.cutAtComma|func(str string, n uint) (before, after string, found bool) { end := int(min(uint(len(str)), n)) if i := strings.IndexByte(str[:end], ','); i >= 0 { after = str[i+1:] return str[:i], after, true } return str, "", false }`
+-/
+def auditedBodies : List Bytes := [
+  Spec.b "origins.parseScheme|04a7c4ffcf12f0724767ced4",
+  Spec.b "origins.parsePort|05f7dd45c90cb08d3d71a57d",
+  Spec.b "origins.fastParseHost|4af731bf8856ead2a1cfa7d6",
+  Spec.b "origins.lastByte|d3ca513283c93e325e82dc44",
+  Spec.b "origins.splitAtCommonSuffix|62e5792622b0cc8e5851d04d",
+  Spec.b "headers.TrimOWS|da7dfb15aa3656dbbee9665f",
+  Spec.b "headers.trimLeftOWS|7328e23ec641f7df09a1aa2f",
+  Spec.b "headers.trimRightOWS|96fe99d0132768759e70ca53",
+  Spec.b "headers.cutAtComma|dfcfd5fceca561452ab19331"
+]
+
+/-- **C17 (bodies).** The functions modelled at index level read, today, exactly as they did when the
+transliteration was written: an edit of one of them breaks this obligation (and the check then searches for a
+failing input). -/
+theorem C17_ix_bodies : Facts.cors_ixBodies = auditedBodies := by decide +kernel
+
 #print axioms C17_sites
 #print axioms C17_value_nonempty
 #print axioms C17_insert_key_nonempty
@@ -339,5 +408,13 @@ theorem C17_sites : Facts.cors_indexSites = auditedSites := by decide +kernel
 #print axioms C17_bracket_end
 #print axioms C17_status_range
 #print axioms C17_parsePort_hoist
+#print axioms C17_ix_parseScheme
+#print axioms C17_ix_parsePort
+#print axioms C17_ix_fastParseHost
+#print axioms C17_ix_lastByte
+#print axioms C17_ix_splitAtCommonSuffix
+#print axioms C17_ix_trimOWS
+#print axioms C17_ix_cutAtComma
+#print axioms C17_ix_bodies
 
 end Cors
